@@ -647,6 +647,15 @@ def gen_xfer(r, flavour, scale, seed):
             'timeout': r.choice([0, 0.0005, 0.003, 0.02, 0.1]),
             'pace': r.choice([0.001, 0.003]) if slow_prod else 0.0,
             'how': 'thread' if (inject == 'slow_put' and flavour == 'mixed' and k < 2) else how()})
+    if not simple and flavour != 'thread' and P >= 2 and r.random() < 0.5:
+        # writers of different sizes from different processes: one sends items
+        # larger than the pipe buffer (written in several pieces), the others
+        # small ones - the writer lock has to keep them apart
+        for k, pc in enumerate(producers):
+            pc['sizes'] = 'large' if k == 0 else 'small'
+            pc['how'] = 'proc'
+            pc['n'] = max(pc['n'], int((24 if k == 0 else 250) * scale))
+            pc['pace'] = 0.0
     for k in range(C):
         style = 'block' if simple else r.choice(['block', 'block', 'timed', 'nowait', 'any'])
         consumers.append({
